@@ -164,4 +164,3 @@ func descIs(names ...string) func(string) bool {
 func descHasPrefix(pre string) func(string) bool {
 	return func(d string) bool { return strings.HasPrefix(d, pre) }
 }
-
